@@ -19,6 +19,8 @@ def main():
             if req["op"] == "read":
                 r = _read_style_map(req["text"])
                 res = {"styles": [GS.real_style_to_json(s) for s in r.value], "messages": [m.message for m in r.messages]}
+            elif req["op"] == "readback":
+                res = {"text": mammoth.read_embedded_style_map(io.BytesIO(bytes.fromhex(req["docx"])))}
             else:
                 data = bytes.fromhex(req["docx"])
                 kw = {"style_map": req["text"]} if req["mode"] == "explicit" else {}
